@@ -11,7 +11,8 @@ D5 = [(0, 1), (1, 1), (0, None), (1, None), (2, 2)]
 
 
 def work(args):
-    k, shape, version, maxn = args
+    k, shape, version, maxn = args[:4]
+    mask = args[4] if len(args) > 4 else None
     from xmlschema.validators.models import check_model
     from xmlschema.validators.exceptions import XMLSchemaModelError
     nodes = S.nodes_preorder(shape)
@@ -20,7 +21,11 @@ def work(args):
         return k, None
     sch, root, group, parts = S.build(shape, version)
     res = []
-    for idx in itertools.product(range(len(D5)), repeat=n):
+    msk = mask or list(range(n))
+    for sub in itertools.product(range(len(D5)), repeat=len(msk)):
+        idx = [1] * n
+        for pos, v in zip(msk, sub):
+            idx[pos] = v
         vec = [D5[i] for i in idx]
         for p, (mn, mx) in zip(parts, vec):
             p.min_occurs, p.max_occurs = mn, mx
@@ -34,7 +39,7 @@ def work(args):
         want = cm.deterministic(S.to_oracle(S.with_occurs(shape, vec)), version, S.SUBST)
         if got != want:
             res.append((list(idx), got))
-    return k, (S.shape_id(shape), n, len(D5) ** n, res)
+    return k, (S.shape_id(shape), n, len(D5) ** len(msk), res)
 
 
 if __name__ == '__main__':
